@@ -86,6 +86,33 @@ def make_classes():
             s = self._score(X)
             return np.vstack([-s, s]).T
 
+    class Memoriser(BaseEstimator, ClassifierMixin):
+        """a learner of unbounded capacity: it remembers the label of every row it was fitted on
+        (returns +-1000 for those) and ranks unseen rows by one feature column"""
+
+        def __init__(self, col=1):
+            self.col = col
+
+        def fit(self, X, y):
+            self.mem_ = {int(i): int(l) for i, l in zip(X[:, 0], y)}
+            self.classes_ = np.array([0, 1])
+            self.col_ = self.col
+            if not hasattr(self, "seen_"):
+                self.seen_ = {}
+            return self
+
+        def decision_function(self, X):
+            out = np.empty(X.shape[0])
+            for j in range(X.shape[0]):
+                i = int(X[j, 0])
+                if i in self.mem_:
+                    out[j] = 1000.0 if self.mem_[i] == 1 else -1000.0
+                else:
+                    out[j] = float(X[j, self.col_])
+                self.seen_[i] = out[j]
+            return out
+
+    make_classes.Memoriser = Memoriser
     return RecScaler, Transparent
 
 
@@ -279,7 +306,11 @@ def run_brew(case, keep_dir=None):
             dss = mokapot.read_pin(paths, max_workers=case.get("read_workers", 1))
             keys = [spectrum_keys(ds) for ds in dss]
             reset_log()
-            if case.get("learner") == "percolator":
+            if case.get("learner") == "memoriser":
+                est = make_classes.Memoriser()
+                model = Model(est, scaler=RecScaler(), train_fdr=case.get("train_fdr", 1.0),
+                              max_iter=case.get("max_iter", 2), override=True, rng=case["seed"])
+            elif case.get("learner") == "percolator":
                 model = mokapot.PercolatorModel(train_fdr=case.get("train_fdr", 0.2), max_iter=3, rng=case["seed"])
             else:
                 est = Transparent(mode=case.get("est_mode", "decision"), learn=case.get("learn", True),
@@ -335,6 +366,8 @@ def run_brew(case, keep_dir=None):
             "best_feat": [m.best_feat if isinstance(m.best_feat, str) else None for m in models],
             "model_desc": [None if m.desc is None else bool(m.desc) for m in models],
             "conf": conf_files, "leftovers": leftovers,
+            "memory": [sorted(getattr(m.estimator, "mem_", {}).keys()) for m in models],
+            "seen": [dict(getattr(m.estimator, "seen_", {})) for m in models],
             "features": [list(ds.feature_columns) for ds in dss],
             "override": [bool(m.override) for m in models],
         }
